@@ -559,6 +559,34 @@ func c05ScopeEdits() []c05Edit {
 	add("type mismatch (return value)", "func f:num\n    return \"s\"\nend\nprint (f)\n")
 	add("value returned from a procedure", "func f\n    return 1\nend\nf\n")
 	add("missing return (bare return in a typed function)", "func f:num\n    return\nend\nprint (f)\n")
+	// a function with a result type must return on EVERY path: one branch of an if / else-if / else chain (each position,
+	// chains of 2-4 branches, also nested and inside loops) falls through
+	for nb := 2; nb <= 4; nb++ {
+		for miss := 0; miss < nb; miss++ {
+			body := ""
+			for b := 0; b < nb; b++ {
+				switch {
+				case b == 0:
+					body += "    if a == 0\n"
+				case b == nb-1:
+					body += "    else\n"
+				default:
+					body += fmt.Sprintf("    else if a == %d\n", b)
+				}
+				if b == miss {
+					body += "        print \"no return here\"\n"
+				} else {
+					body += fmt.Sprintf("        return %d\n", b)
+				}
+			}
+			body += "    end\n"
+			add(fmt.Sprintf("missing return (branch %d of %d falls through)", miss+1, nb), "func f:num a:num\n"+body+"end\nprint \"started\"\nprint (f 1) (f 0) (f 2) (f 9)\n")
+			add(fmt.Sprintf("missing return (nested: branch %d of %d falls through)", miss+1, nb), "func f:num a:num\n    if a > 100\n        return 100\n    else\n"+indent(body, 1)+"    end\nend\nprint \"started\"\nprint (f 1)\n")
+		}
+	}
+	add("missing return (if without else)", "func f:num a:num\n    if a == 0\n        return 0\n    else if a == 1\n        return 1\n    end\nend\nprint (f 1)\n")
+	add("missing return (only inside a loop)", "func f:num a:num\n    for i := range a\n        return i\n    end\nend\nprint (f 1)\n")
+	add("missing return (only inside a while)", "func f:num a:num\n    while a > 0\n        return a\n    end\nend\nprint (f 1)\n")
 	add("unused variable (parameter is fine, local is not)", "func f a:num\n    b := a\nend\nf 1\n")
 	return out
 }
